@@ -4,6 +4,7 @@ Besides model equality after restart and a byte-identical re-dump, every .treein
 parsed by an independent minimal INI reader so that a symmetric writer/reader error is visible.
 """
 from .. import gen_ti
+from ..kits import KITS
 from ..pools import pick
 
 ID = "C04"
@@ -15,7 +16,7 @@ MACHINES = ["M-TI", "M-DI"]
 
 def gen_di_case(rng):
     K = gen_ti.gen_discinfo(rng)
-    ops = [dict(K, op="di_init")]
+    ops = KITS["M-DI"].build(K, rng) if rng.random() < 0.6 else [dict(K, op="di_init")]
     path = "/sim/d/.discinfo"
     for _ in range(rng.randint(1, 3)):
         ops.append({"op": "dump", "path": path})
@@ -25,6 +26,13 @@ def gen_di_case(rng):
         ops.append({"op": "di_set", "field": f, "value": K2[f]})
     ops.append({"op": "dump", "path": path})
     ops.append({"op": "restart", "path": path, "via": "path"})
+    _machine = "M-DI"
+    tier = "quick"
+    if rng.random() < 0.25:
+        # a bystander object with other content lives next to the main one
+        b_build, b_final = KITS[_machine].bystander(rng, tier)
+        cut = rng.randint(1, len(ops))
+        ops = ops[:cut] + b_build + ops[cut:] + b_final + [o for o in ops[-2:] if o["op"] in ("dump", "restart")]
     return {"machine": "M-DI", "cfg": {}, "ops": ops}
 
 
@@ -47,4 +55,10 @@ def generate(rng, tier, idx):
             ops.append(gen_ti.valid_mutation(K, rng))
     ops.append({"op": "dump", "path": path})
     ops.append({"op": "restart", "path": path, "via": "path"})
+    _machine = "M-TI"
+    if rng.random() < 0.25:
+        # a bystander object with other content lives next to the main one
+        b_build, b_final = KITS[_machine].bystander(rng, tier)
+        cut = rng.randint(1, len(ops))
+        ops = ops[:cut] + b_build + ops[cut:] + b_final + [o for o in ops[-2:] if o["op"] in ("dump", "restart")]
     return {"machine": "M-TI", "cfg": {"simset": pick(rng, ["insertion", "shuffle", "reverse", "sorted"])}, "ops": ops}
